@@ -9,16 +9,16 @@ def run(ctx):
     names = ['lit1', 'backup', 'nul1', 'bol1', 'tc_fixed_trail', 'default1'] if quick else \
             ['lit1', 'backup', 'backup2', 'nul1', 'nul_jam', 'bol1', 'eol1', 'tc_fixed_trail', 'tc_fixed_head', 'default1', 'sc1', 'ties', 'high1', 'bar1']
     specs = common.select(ctx, corpus.specs(names=names))
-    cfgs = [C('Cem'), C('B', ['-B']), C('Cfe', ['-Cfe']), C('CFe', ['-CFe'])] if quick else \
-           [C('Cem'), C('B', ['-B']), C('Cfe', ['-Cfe']), C('CFe', ['-CFe']), C('array', options=['array', 'yylmax=16']), C('r', api='r'), C('C', ['-C'])]
+    cfgs = [C('Cem'), C('B', ['-B']), C('Cfe', ['-Cfe']), C('CFe', ['-CFe']), C('Cf8', ['-Cf', '-8'])] if quick else \
+           [C('Cem'), C('B', ['-B']), C('Cfe', ['-Cfe']), C('CFe', ['-CFe']), C('Cf8', ['-Cf', '-8']), C('CF8', ['-CF', '-8']), C('array', options=['array', 'yylmax=16']), C('r', api='r'), C('C', ['-C'])]
     shapes = [(1, 1), (2, 1), (2, 2)] if quick else [(1, 1), (2, 1), (2, 2), (1, 2), (3, 2), (2, 3), (3, 3)]
     jobs = []
     for spec in specs:
         for cfg in cfgs:
             if cfg.table_kind != 'compressed' and ('vartrail' in spec.tags or 'reject' in spec.tags):
                 continue
-            if quick and cfg.name in ('Cfe', 'CFe') and spec.name not in ('backup', 'nul1'):
-                continue        # full/fast tables: the re-walk of pending text after a refill has its own back-up bookkeeping
+            if quick and cfg.name in ('Cfe', 'CFe', 'Cf8') and spec.name not in ('backup', 'nul1'):
+                continue        # full/fast tables (with and without a separate NUL table): the re-walk of pending text after a refill has its own back-up bookkeeping
             interactive = cfg.table_kind == 'compressed' and '-B' not in cfg.flags
             for i, (bs, m) in enumerate(shapes):
                 if quick and cfg.name != 'Cem' and (bs, m) != (2, 1):
